@@ -245,6 +245,15 @@ func (w *World) Check(out *vs.Outcome) ([]string, uint64) {
 				}
 			}
 		}
+		// a request that was accepted (enqueued, or answered with nil) admits its combination too,
+		// whether or not its items ever reach the exporter
+		for _, c := range w.callers {
+			for _, rs := range c.Reqs {
+				if rs.Started && (rs.Sent || (rs.Returned && rs.Err == nil)) {
+					seen[comboOf(sc.Keys, c.Spec.Metadata)] = true
+				}
+			}
+		}
 		if len(seen) > int(sc.Limit) {
 			w.violate("C10", "%d distinct metadata combinations were admitted, metadata_cardinality_limit=%d: %v", len(seen), sc.Limit, keysOf(seen))
 		}
